@@ -141,6 +141,11 @@ pub enum Tags {
     OpenOpen,
     /// `</block> </block>` in one comment.
     CloseClose,
+    /// `</block><block>`: an end tag directly followed by a bare start tag (no attributes, no
+    /// space) as the very last text of the comment.
+    CloseOpenBare,
+    /// `<block name=…><block>`: a bare start tag as the very last text of the comment.
+    OpenOpenBare,
 }
 
 /// Where the tag text sits inside the comment.
@@ -156,6 +161,8 @@ pub enum Layout {
     Indented,
     /// One line, and the next segment continues on the same line (block forms only).
     SameLine,
+    /// One line, appended to the line of the preceding code segment (`code  // </block>`).
+    Trailing,
 }
 
 #[derive(Clone, Copy, Debug, PartialEq, Eq, Hash)]
@@ -262,7 +269,7 @@ impl<'k> Renderer<'k> {
     /// Whether `seg` can be appended when the open blocks' comment families are `open_families`
     /// (innermost last). With `cross_family` a closing tag may sit in a comment of another family
     /// than the start tag it closes (Markdown: link-reference comment vs HTML comment).
-    pub fn applicable(kit: &Kit, open_families: &[u8], max_depth: usize, cross_family: bool, seg: &Seg) -> bool {
+    pub fn applicable(kit: &Kit, open_families: &[u8], max_depth: usize, cross_family: bool, prev: Option<&Seg>, seg: &Seg) -> bool {
         let depth = open_families.len();
         match seg {
             Seg::Code(i) => (*i as usize) < kit.code.len(),
@@ -277,14 +284,19 @@ impl<'k> Renderer<'k> {
                     (_, Layout::Indented) => kit.indent_ok,
                     (FormKind::Block, Layout::SameLine) => !kit.blank_between,
                     (_, Layout::SameLine) => false,
+                    // Only after a one-line code segment, and not in Markdown / Makefile recipes.
+                    (FormKind::Line | FormKind::Block, Layout::Trailing) => {
+                        !kit.blank_between && kit.indent_ok && matches!(prev, Some(Seg::Code(0)))
+                    }
+                    (_, Layout::Trailing) => false,
                 };
                 let family_ok = || cross_family || open_families.last() == Some(&f.family);
                 let two_ok = || cross_family || (depth >= 2 && open_families[depth - 2] == f.family);
                 let tags_ok = match tags {
                     Tags::None | Tags::Pair => true,
                     Tags::Open => depth < max_depth,
-                    Tags::OpenOpen => depth + 2 <= max_depth,
-                    Tags::Close | Tags::CloseOpen => depth > 0 && family_ok(),
+                    Tags::OpenOpen | Tags::OpenOpenBare => depth + 2 <= max_depth,
+                    Tags::Close | Tags::CloseOpen | Tags::CloseOpenBare => depth > 0 && family_ok(),
                     Tags::CloseClose => depth >= 2 && family_ok() && two_ok(),
                 };
                 layout_ok && tags_ok
@@ -303,11 +315,11 @@ impl<'k> Renderer<'k> {
                     Tags::Close => {
                         stack.pop();
                     }
-                    Tags::CloseOpen => {
+                    Tags::CloseOpen | Tags::CloseOpenBare => {
                         stack.pop();
                         stack.push(family);
                     }
-                    Tags::OpenOpen => {
+                    Tags::OpenOpen | Tags::OpenOpenBare => {
                         stack.push(family);
                         stack.push(family);
                     }
@@ -323,6 +335,12 @@ impl<'k> Renderer<'k> {
     }
 
     /// Writes a start tag at the current position and returns (lt, gt).
+    fn bare_tag(&mut self) -> (String, usize, usize) {
+        let lt = self.out.text.len();
+        self.out.text.push_str("<block>");
+        (String::new(), lt, lt + 6)
+    }
+
     fn start_tag(&mut self, quote: char) -> (String, usize, usize) {
         self.counter += 1;
         let name = format!("b{}", self.counter);
@@ -373,6 +391,22 @@ impl<'k> Renderer<'k> {
                     opened.push((n, lt, gt));
                 }
             }
+            Tags::CloseOpenBare => {
+                pending.push((false, self.out.text.len(), 8));
+                self.out.text.push_str("</block>");
+                *closed += 1;
+                let (n, lt, gt) = self.bare_tag();
+                pending.push((true, lt, gt - lt + 1));
+                opened.push((n, lt, gt));
+            }
+            Tags::OpenOpenBare => {
+                let (n, lt, gt) = self.start_tag(quote);
+                pending.push((true, lt, gt - lt + 1));
+                opened.push((n, lt, gt));
+                let (n, lt, gt) = self.bare_tag();
+                pending.push((true, lt, gt - lt + 1));
+                opened.push((n, lt, gt));
+            }
             Tags::CloseClose => {
                 for i in 0..2 {
                     if i > 0 {
@@ -391,6 +425,12 @@ impl<'k> Renderer<'k> {
         self.comment_id += 1;
         let id = self.comment_id;
         if layout == Layout::Indented {
+            self.out.text.push_str("  ");
+        }
+        if layout == Layout::Trailing && self.out.text.ends_with(self.eol) {
+            // Continue the previous (code) line.
+            let len = self.out.text.len() - self.eol.len();
+            self.out.text.truncate(len);
             self.out.text.push_str("  ");
         }
         let comment_start = self.out.text.len();
@@ -460,8 +500,8 @@ impl<'k> Renderer<'k> {
         // Pairing, in the order the tags appear in the comment.
         let events: Vec<Tags> = match tags {
             Tags::Pair => vec![Tags::Open, Tags::Close],
-            Tags::CloseOpen => vec![Tags::Close, Tags::Open],
-            Tags::OpenOpen => vec![Tags::Open, Tags::Open],
+            Tags::CloseOpen | Tags::CloseOpenBare => vec![Tags::Close, Tags::Open],
+            Tags::OpenOpen | Tags::OpenOpenBare => vec![Tags::Open, Tags::Open],
             Tags::CloseClose => vec![Tags::Close, Tags::Close],
             t => vec![t],
         };
@@ -544,13 +584,17 @@ pub fn alphabet(kit: &Kit, rich: bool) -> Vec<Seg> {
         if f.kind == FormKind::Block && !kit.blank_between {
             layouts.push(Layout::SameLine);
         }
+        if matches!(f.kind, FormKind::Line | FormKind::Block) && !kit.blank_between && kit.indent_ok {
+            layouts.push(Layout::Trailing);
+        }
         for layout in layouts {
             let tag_kinds: &[Tags] = match layout {
-                Layout::Bare => &[Tags::None, Tags::Open, Tags::Close, Tags::Pair, Tags::CloseOpen, Tags::OpenOpen, Tags::CloseClose],
+                Layout::Bare => &[Tags::None, Tags::Open, Tags::Close, Tags::Pair, Tags::CloseOpen, Tags::OpenOpen, Tags::CloseClose, Tags::CloseOpenBare, Tags::OpenOpenBare],
                 Layout::Noisy => &[Tags::Open, Tags::Close, Tags::Pair],
                 Layout::Multi(_) => if rich { &[Tags::Open, Tags::Close, Tags::Pair] } else { &[Tags::Open, Tags::Close] },
                 Layout::Indented => &[Tags::Open, Tags::Close],
                 Layout::SameLine => &[Tags::Open, Tags::Close, Tags::None],
+                Layout::Trailing => &[Tags::Open, Tags::Close],
             };
             for &tags in tag_kinds {
                 v.push(Seg::Comment { form: fi as u8, layout, tags });
@@ -580,6 +624,7 @@ pub fn seg_from_json(v: &Value) -> Option<Seg> {
         "Noisy" => Layout::Noisy,
         "Indented" => Layout::Indented,
         "SameLine" => Layout::SameLine,
+        "Trailing" => Layout::Trailing,
         "Multi(0)" => Layout::Multi(0),
         "Multi(1)" => Layout::Multi(1),
         "Multi(2)" => Layout::Multi(2),
@@ -593,6 +638,8 @@ pub fn seg_from_json(v: &Value) -> Option<Seg> {
         "CloseOpen" => Tags::CloseOpen,
         "OpenOpen" => Tags::OpenOpen,
         "CloseClose" => Tags::CloseClose,
+        "CloseOpenBare" => Tags::CloseOpenBare,
+        "OpenOpenBare" => Tags::OpenOpenBare,
         _ => return None,
     };
     Some(Seg::Comment { form: v.get("form")?.as_u64()? as u8, layout, tags })
